@@ -109,6 +109,13 @@ def build(d, rng, content_tag=b''):
     return blob, ('key', k), data, sk
 
 
+def _still_has_encrypted_packet(blob):
+    try:
+        return any(p.tag in (9, 18) for p in wire.split(bytes(blob)))
+    except Exception:
+        return False
+
+
 def attempt(ctx, pgpy, blob, secret, allowed, what, d, extra=None, counter=None):
     """decrypt a (mutated) message; the outcome must be an exception or one of the allowed plaintexts"""
     ctx.count('attempts')
@@ -133,6 +140,14 @@ def attempt(ctx, pgpy, blob, secret, allowed, what, d, extra=None, counter=None)
         got = bytes(dec._message._contents) if dec.type == 'literal' else None
     except Exception:
         got = None
+    if dec is em and not em.is_encrypted and any('not encrypted' in str(w.message) for w in wlist) and got is not None and got not in allowed \
+            and _still_has_encrypted_packet(blob):
+        # the input still holds an encrypted data packet, yet PGPy calls it "not encrypted" and hands back a plaintext packet that
+        # travelled beside it: the encrypted part was dropped silently
+        ctx.outcome('ENCRYPTED-PART-IGNORED')
+        ctx.fail('encrypted-data-packet-ignored-and-foreign-plaintext-returned', dict({'base': d, 'mutation': what, 'returned': hx(got)[:120] if got is not None else repr(dec)[:100],
+                                                                                    'message': hx(blob)[:600]}, **(extra or {})))
+        return 'different'
     if dec is em and not em.is_encrypted and any('not encrypted' in str(w.message) for w in wlist):
         # the mutation destroyed the framing: what is left does not parse as an encrypted message, nothing was decrypted, and PGPy
         # hands the *input object* back with its documented "This message is not encrypted" warning (behaviour pinned by the suite)
@@ -257,6 +272,17 @@ def run_case(ctx, d):
             attempt(ctx, pgpy, b''.join(esk + other_esk) + datapkt, secret, [data], 'foreign-esk-last', d)
             attempt(ctx, pgpy, datapkt + b''.join(esk), secret, [data], 'esk-after-data', d)
             attempt(ctx, pgpy, b''.join(esk) + datapkt + datapkt, secret, [data], 'data-twice', d)
+            # plaintext packets smuggled in beside the encrypted one: the result is the true plaintext or an error, never the smuggled text
+            evil = encwork.literal_packet(b'pay 9999 EUR to mallory', b'b', b'', 0)
+            evil_z = wire.new_hdr(8, 1 + len(evil)) + b'\x00' + evil
+            marker = wire.new_hdr(10, 3) + b'PGP'
+            for name, extra in (('literal', evil), ('uncompressed-compressed-literal', evil_z)):
+                attempt(ctx, pgpy, extra + b''.join(esk) + datapkt, secret, [data], name + '-prepended', d)
+                attempt(ctx, pgpy, b''.join(esk) + extra + datapkt, secret, [data], name + '-between-esk-and-data', d)
+                attempt(ctx, pgpy, b''.join(esk) + datapkt + extra, secret, [data], name + '-appended', d)
+                if len(esk) > 0:
+                    attempt(ctx, pgpy, esk[0] + extra + b''.join(esk[1:]) + datapkt, secret, [data], name + '-after-first-esk', d)
+            attempt(ctx, pgpy, marker + b''.join(esk) + datapkt, secret, [data], 'marker-prepended', d)
         elif m == 'wrong_secret':
             # the same message *object*, after it has been decrypted successfully once: a wrong secret must still be refused
             try:
